@@ -865,7 +865,48 @@ def strip_tuple_field(t):
     return t
 
 
+def r36(facts, res):
+    """"The reported conflicts are exactly the cells settled by the default rules": the two conflict lists handed to `Conflicts`
+    only ever GROW (one record per settled cell, R3.1/R3.2) and are re-ordered; nothing takes records out again.  A dedup, retain,
+    truncate .. after the fact makes the report - and the %expect / %expect-rr counts compared with it - smaller than what was
+    settled."""
+    R = 'R3.6'
+    b = facts.one(R, 'StateTable::new', crate='lrtable', name='new', impl_re=r'statetable::StateTable<')
+    lit = None
+    for bb, i, st in b.stmts():
+        if st['k'] == 'assign' and 'agg' in st['rv'] and isinstance(st['rv']['agg'], dict) and st['rv']['agg'].get('adt', '').endswith('statetable::Conflicts'):
+            lit = st
+    if lit is None:
+        res.lost(R, 'the Conflicts literal was not found in StateTable::new')
+        return
+    lists = {b.op_root(o, stop_named=True)[0] for o in lit['rv']['ops']}
+    lists = {l for l in lists if b.lty(l).startswith('alloc::vec::Vec<')}
+    if len(lists) != 2:
+        res.lost(R, 'expected two conflict lists feeding the Conflicts literal, found %d' % len(lists))
+        return
+    SHRINKING = ('dedup', 'dedup_by', 'dedup_by_key', 'retain', 'retain_mut', 'truncate', 'clear', 'pop', 'remove', 'swap_remove', 'drain', 'split_off', 'extract_if')
+    for l in sorted(lists):
+        shr = []
+        n = 0
+        for bb, t in b.calls():
+            for a in t['args']:
+                la = op_local(a)
+                if la is not None and b.lty(la).startswith('&mut ') and b.op_root(a)[0] == l:
+                    n += 1
+                    if cname(t) in SHRINKING:
+                        shr.append((bb, cname(t)))
+        key = 'grow-only:' + (b.name_of(l) or '_%d' % l)
+        if shr:
+            res.bad(R, key, loc_of(b, shr[0][0]), 'records are taken out of the conflict list `%s` again (%s): fewer conflicts are reported, and counted against %%expect / %%expect-rr, '
+                    'than cells were settled by the default rules' % (b.name_of(l), ', '.join(sorted({x for _b, x in shr}))), {'function': b.path})
+        elif n == 0:
+            res.lost(R, 'the conflict list `%s` is never filled' % b.name_of(l))
+        else:
+            res.ok(R, key, loc_of(b), '`%s` is only appended to and re-ordered (%d mutating uses, none removes records)' % (b.name_of(l), n))
+
+
 def run(facts, res):
+    r36(facts, res)
     r31(facts, res)
     r32(facts, res)
     r33(facts, res)
